@@ -33,8 +33,9 @@ class GenericSDE(nn.Module):
     def __init__(self, spec):
         super().__init__()
         self.spec = spec
-        self.noise_type = spec["noise_type"]
-        self.sde_type = spec["sde_type"]
+        # equal but distinct string objects (as if read from a configuration file)
+        self.noise_type = "".join(list(spec["noise_type"]))
+        self.sde_type = "".join(list(spec["sde_type"]))
         d, m, hdim = spec["d"], spec["m"], spec["hidden"]
         dtype = getattr(torch, spec.get("dtype", "float64"))
         gen = torch.Generator().manual_seed(spec["seed"])
@@ -93,6 +94,8 @@ class GenericSDE(nn.Module):
 
     def g(self, t, y):
         nt = self.noise_type
+        if self.spec.get("g_alias") and nt == "diagonal":
+            return y                       # unit multiplicative noise dY_i = ... + Y_i dW_i: g returns its input tensor
         if self.gstored and y.size(0) == self.gbuf.size(0):
             return self.gbuf.clone() if self.gstored == "clone" else self.gbuf
         if self.gswitch is not None and float(t) >= self.gswitch:
@@ -194,7 +197,7 @@ def make_bm(torchsde, spec_or_shape, t0, t1, entropy, levy="none", dtype=torch.f
     else:
         shape = tuple(spec_or_shape)
     return torchsde.BrownianInterval(t0=float(t0), t1=float(t1), size=shape, dtype=dtype, entropy=int(entropy),
-                                     levy_area_approximation=levy, **kw)
+                                     levy_area_approximation="".join(list(levy)), **kw)
 
 
 def dyadic_grid(draw, max_log2_steps=6):
